@@ -431,6 +431,15 @@ def alert_cases():
             for unread in (0, 1):
                 for al in ("close_notify", "fatal"):
                     cases.append({"name": "%s/%s/unread%d/%s" % (ver, side, unread, al), "scen": sc, "side": side, "unread": unread, "alert": al})
+            # a fatal alert closes the connection whatever its description (also one the library has no name for)
+            for desc in (10, 47, 80, 86, 112, 115, 255):
+                cases.append({"name": "%s/%s/unread0/fatal-desc%d" % (ver, side, desc), "scen": sc, "side": side, "unread": 0, "alert": "fatal", "desc": desc})
+    # Close while the handshake is still waiting for a silent peer, also for endpoints configured for both versions (the
+    # version negotiation runs before either flight machine exists)
+    for name, sc in (("12", dict(ver="12", helloVerify=True, **nocid)), ("13", dict(ver="13", helloVerify=True, curvesC=[29], curvesS=[29], **nocid)),
+                     ("dual", dict(ver="13", cver="dual", sver="dual", helloVerify=True, curvesC=[29], curvesS=[29], **nocid))):
+        for side in "cs":
+            cases.append({"name": "%s/%s/close-in-handshake" % (name, side), "scen": sc, "side": side, "unread": 0, "alert": "close-in-handshake"})
     return cases
 
 
